@@ -128,10 +128,39 @@ def tokamak_inputs(c):
     return r1d, z1d, psi2d, psi1d, opts, wall, kw
 
 
+def copying_call(self, function, args_list, **kwargs):
+    """ParallelMap.__call__ with the DATA FLOW of worker processes and no concurrency: every
+    task (function, arguments, keywords) reaches the function as a pickled copy, and the
+    caller receives a pickled copy of the result -- exactly what the two multiprocessing
+    queues do.  Effects of the function on its arguments are therefore lost, as in a worker."""
+    import pickle as _p
+
+    out = []
+    for args in tuple(args_list):
+        f2, a2, k2 = _p.loads(_p.dumps((function, args, kwargs)))
+        r = f2(*a2, equilibrium=self.equilibrium, psi=self.psi, f_R=self.f_R, f_Z=self.f_Z, **k2)
+        out.append(_p.loads(_p.dumps(r)))
+    return out
+
+
 def build_mesh(c):
     """Run the real pipeline; returns (eq, mesh)."""
     sys.path.insert(0, REPO)
     import numpy as np
+
+    if c.get("worker_copies"):
+        from hypnotoad.utils import parallel_map as _pm
+
+        if not getattr(_pm.ParallelMap, "_vc_copying", False):
+            _pm.ParallelMap._vc_serial_call = _pm.ParallelMap.__call__
+            _pm.ParallelMap.__call__ = copying_call
+            _pm.ParallelMap._vc_copying = True
+    else:
+        from hypnotoad.utils import parallel_map as _pm
+
+        if getattr(_pm.ParallelMap, "_vc_copying", False):
+            _pm.ParallelMap.__call__ = _pm.ParallelMap._vc_serial_call
+            _pm.ParallelMap._vc_copying = False
 
     if c["kind"] == "tokamak":
         from hypnotoad import tokamak
